@@ -8,11 +8,31 @@ val archive_write_extra : coq_N
 
 val archive_header_extra : coq_N
 
+val archive_min_protocol : coq_N
+
+val archive_flag_gt : coq_N
+
+val archive_send_gt : coq_N
+
+val archive_v3_protocol : coq_N
+
+val archive_writer_needs_dir : coq_N
+
+val archive_reader_file_nil : bool
+
+val archive_probe_guard_fires : bool
+
+val archive_probe_nofile_compress : bool
+
 val buffer_line_newline : coq_N
 
 val buffer_line_interrupt : coq_N
 
 val buffer_line_cr : coq_N
+
+val buffer_queue_capacity : coq_N
+
+val buffer_add_blocks : bool
 
 val det_min_len : coq_N
 
@@ -136,13 +156,25 @@ val guards_hash_step : coq_Z
 
 val guards_default_bufsize : coq_Z
 
+val guards_init_buffer_size : coq_Z
+
 val guards_default_timeout : coq_Z
+
+val guards_v1_init_bufsize : coq_Z
 
 val guards_data_min_bufsize : coq_Z
 
 val guards_data_factor : coq_Z
 
 val guards_bufsize_clamp : coq_Z
+
+val guards_ack_fast_ms : coq_Z
+
+val guards_ack_slow_ms : coq_Z
+
+val guards_grow_factor : coq_Z
+
+val guards_min_chunk : coq_Z
 
 val names_max_len : coq_N
 
@@ -206,6 +238,10 @@ val pause_gate_sleep_ms : coq_N
 
 val pause_reader_sleep_ms : coq_N
 
+val pause_final_ack_poll_ms : coq_N
+
+val pause_ack_window : coq_N
+
 val pause_protocol3 : coq_N
 
 val pause_keepalive_written : coq_N list
@@ -215,6 +251,8 @@ val pause_keepalive_tested : coq_N list
 val pause_colon : coq_N
 
 val pause_timeout_unit_ms : coq_N
+
+val pause_ignore_chunk_count : coq_N
 
 val progress_ellipsis_reserve : coq_Z
 
@@ -252,6 +290,10 @@ val progress_bar_full_rune : coq_N
 
 val progress_bar_empty_rune : coq_N
 
+val progress_pane_ignored : coq_Z
+
+val progress_show_cursor : coq_N list
+
 val progress_bar_min_length : coq_Z
 
 val progress_multi_threshold : coq_Z
@@ -263,11 +305,35 @@ val progress_left_sep : coq_N list
 val progress_ladder :
   ((coq_N * (coq_Z * coq_Z)) * (coq_N list * coq_N list)) list
 
+val c02_succ_waits_saver : bool
+
+val c02_resume_rest_guard : coq_N
+
+val c02_resume_truncates : coq_N
+
+val c02_resume_size_guard : coq_N
+
+val pump_transfer_buf_size : coq_N
+
+val pump_filter_buf_size : coq_N
+
+val pump_relay_stdin_buf_size : coq_N
+
+val pump_relay_stdout_buf_size : coq_N
+
+val pump_tunnel_in_buf_size : coq_N
+
+val pump_tunnel_out_buf_size : coq_N
+
 val relay_standby : coq_N
 
 val relay_handshaking : coq_N
 
 val relay_transferring : coq_N
+
+val relay_reset_guarded : bool
+
+val relay_handshaking_stored_by_reader : bool
 
 val relayneg_protocol_version : coq_Z
 
@@ -319,7 +385,17 @@ val relayneg_reset_clears_tunnel_flag : bool
 
 val relayneg_handshake_sets_tunnel_flag : bool
 
+val relayneg_to_client_nl : coq_N list
+
+val relayneg_to_client_win_nl : coq_N list
+
+val relayneg_to_server_nl : coq_N list
+
+val relayneg_to_server_win_nl : coq_N list
+
 val relayneg_escape_table_has_marshaler : bool
+
+val prefix_hash_step : coq_N
 
 val resume_min_protocol : coq_N
 
@@ -336,6 +412,12 @@ val tr_compress_rules : (((coq_N * coq_N) * bool) * coq_N) list
 val tr_proto_json_names : coq_N
 
 val tr_proto_pipeline : coq_N
+
+val tr_proto_archive : coq_N
+
+val tr_proto_resume_nosize : coq_N
+
+val tr_resume_rest_check : bool
 
 val tunnel_uid_cut_if_longer : coq_N
 
@@ -370,6 +452,8 @@ val deliver_data_prefix : coq_N list
 val data_v2_binary_format : coq_N list
 
 val data_v2_base64_prefix : coq_N list
+
+val data_v2_piece_terminator : coq_N list option
 
 val data_v1_binary_format : coq_N list
 
